@@ -65,6 +65,52 @@ def parseOp : String → Option Op
 def parseZone (tok : String) : Option (List Int) :=
   if tok == "-" then some [] else (tok.splitOn ",").mapM (·.toInt?)
 
+/-- `<nz> (<zid> <n> <v>…)…` → zones, rest -/
+def parseZones : Nat → List String → Option (List (Nat × List Int) × List String)
+  | 0, rest => some ([], rest)
+  | k + 1, zid :: n :: rest => do
+    let zid ← zid.toNat?
+    let n ← n.toNat?
+    if rest.length < n then none else
+    let vals ← (rest.take n).mapM (·.toInt?)
+    let (zs, rest') ← parseZones k (rest.drop n)
+    some ((zid, vals) :: zs, rest')
+  | _, _ => none
+
+def parseProbes : Nat → List String → Option (List (Op × JV))
+  | 0, [] => some []
+  | k + 1, op :: tok :: rest => do
+    let op ← parseOp op
+    let v ← parseJV tok
+    let ps ← parseProbes k rest
+    some ((op, v) :: ps)
+  | _, _ => none
+
+def answerSeg (col : String) (toks : List String) : String :=
+  let stride? : Option Nat :=
+    if col == "ts" then some Snel.Gen.C16.ztiStrideTimestamp
+    else if col == "field" then some Snel.Gen.C16.ztiStrideField else none
+  match stride?, toks with
+  | some stride, nz :: rest =>
+    match nz.toNat? with
+    | none => "bad-op"
+    | some nz =>
+      match parseZones nz rest with
+      | some (zones, np :: rest') =>
+        match np.toNat? with
+        | none => "bad-op"
+        | some np =>
+          match parseProbes np rest' with
+          | none => "bad-op"
+          | some probes =>
+            " ".intercalate (probes.map fun (op, v) =>
+              match segPrune op (SV.ofJson v) stride (col == "ts") zones with
+              | none => "unhandled"
+              | some [] => "-"
+              | some zs => ",".intercalate (zs.map toString))
+      | _ => "bad-op"
+  | _, _ => "bad-op"
+
 def answer (line : String) : String :=
   match words line with
   | ["parse", h] =>
@@ -107,6 +153,7 @@ def answer (line : String) : String :=
     match unhexStr h with
     | some s => s!"filter={showSV (.utf8 s)} row={showOpt (sinceCondition s)}"
     | none => "bad-op"
+  | "seg" :: col :: toks => answerSeg col toks
   | ["zone", op, cal, tok, z] =>
     match parseOp op, parseJV tok, parseZone z with
     | some op, some v, some zone =>
